@@ -149,6 +149,7 @@ class Ctx:
         self.o = o
         self.last_model = None
         self.failed = []        # conc mode: failed labels
+        self.cache = None       # job-level obligation cache: (label, decision prefix) -> record
 
     # ---------------------------------------------------------------- inputs
     def real(self, name):
@@ -360,7 +361,27 @@ class Ctx:
         d = dict(label=label, res=res, path=''.join('TF'[not x] for x in self.decisions[:self.pos]))
         d.update(kw)
         self.obligations.append(d)
+        if self.cache is not None:
+            self.cache[self._ckey(label, bump=False)] = d
         return d
+
+    def _ckey(self, label, bump=True):
+        if not hasattr(self, '_occ'):
+            self._occ = {}
+        if bump:
+            self._occ[label] = self._occ.get(label, 0) + 1
+        return (label, self._occ.get(label, 1), ''.join('TF'[not x] for x in self.decisions[:self.pos]))
+
+    def _cached(self, label):
+        """An obligation reached with the same decision prefix was already decided on an earlier path of this job
+        (re-execution is deterministic, so it is the identical query)."""
+        if self.cache is None:
+            return None
+        d = self.cache.get(self._ckey(label))
+        if d is not None and d['res'] in ('unsat', 'ground-ok'):
+            self.obligations.append(dict(d, cached=True))
+            return d
+        return None
 
     def prove(self, cond, label):
         """cond must hold on this path (for all values)."""
@@ -372,6 +393,8 @@ class Ctx:
         if isinstance(cond, (bool, _np.bool_)):
             self._record(label, 'ground-ok' if cond else 'ground-fail', ground=True)
             return bool(cond)
+        if self._cached(label) is not None:
+            return True
         t = cond.t if isinstance(cond, SB) else cond
         t0 = time.time()
         r = self.check(z3.Not(t))
@@ -399,6 +422,8 @@ class Ctx:
             return ok
         if self.mode == 'conc':
             return self._conc_eq(a, b, label)
+        if self._cached(label) is not None:
+            return True
         if isinstance(a, SInt):
             a = SV(z3.ToReal(a.t))
         if isinstance(b, SInt):
@@ -1099,9 +1124,11 @@ def explore(fnc, opts=None, maxpaths=20000):
     """Depth-first exploration; yields (ctx, result_or_exception) per feasible path."""
     work = [[]]
     n = 0
+    cache = {}
     while work:
         pre = work.pop()
         c = Ctx('sym', pre, opts=opts)
+        c.cache = cache
         Ctx.cur = c
         try:
             try:
